@@ -579,9 +579,111 @@ static void run_frames(int section)
 	xp_state(h);
 }
 
+/* ------------------------------------------------------------------ section 5: input while the sender's own send path is full / broken */
+static void run_blocked_sender(void)
+{
+	int ws = xp_choose(2, XP_SCENARIO, "transport");
+	int how = xp_choose(3, XP_SCENARIO, "send-path"); /* 0 window 0 and write buffer full, 1 every writev fails with EPIPE, 2 window 0 but buffer not yet full */
+	struct wsf fr;
+	int raw_input = 0;
+	if (ws) {
+		fr = WSF_ALPHA[xp_choose(WSF_NALPHA, XP_SCENARIO, "frame")];
+	} else {
+		raw_input = xp_choose(5, XP_SCENARIO, "raw-input"); /* 0 request, 1 invalid JSON, 2 oversize length, 3 batch of 3 requests, 4 request for a routed call */
+	}
+	int repeat = 1 + xp_choose(3, XP_SCENARIO, "repeat");
+	char d[140] = "";
+	if (ws) {
+		wsf_describe(&fr, d, sizeof(d));
+	}
+	static const char *const HOWN[] = {"window 0, write buffer full", "writev fails with EPIPE", "window 0, buffer not full"};
+	static const char *const RAWN[] = {"a request", "invalid JSON", "an oversize length prefix", "a batch", "a call routed to the bystander"};
+	snprintf(what, sizeof(what), "%s peer whose own send path is blocked (%s) sends %d x %s", ws ? "websocket" : "raw", HOWN[how], repeat, ws ? d : RAWN[raw_input]);
+	struct sim_opts o = {0};
+	jx_boot(&o);
+	bystander_setup();
+	A = jx_open(ws ? CL_WS : CL_RAW);
+	jx_sendf(A, "{\"id\":\"a1\",\"method\":\"add\",\"params\":{\"path\":\"sa\",\"value\":1}}");
+	jx_sendf(A, "{\"id\":\"a3\",\"method\":\"fetch\",\"params\":{\"id\":\"fa\"}}");
+	jx_settle();
+	if (how == 1) {
+		sim_client_reset(A, RST_WRITE);
+	} else {
+		sim_set_window(A, 0);
+	}
+	if (how == 0) {
+		/* fill the daemon's write buffer for A: responses to 70 info requests are far more than 5120 bytes */
+		int fill_kind = ws ? xp_choose(2, XP_SCENARIO, "filled-by") : 0; /* 0 responses to requests, 1 pongs to pings (websocket) */
+		for (int i = 0; i < 70 && !sim_conn_closed_by_daemon(A); i++) {
+			if (fill_kind == 1) {
+				struct bytebuf pb = {0};
+				uint8_t pl[120];
+				memset(pl, 'p', sizeof(pl));
+				cl_frame_ws(&pb, 9, true, 0, true, 0, pl, sizeof(pl));
+				sim_client_send(A, pb.p, pb.len);
+				bb_free(&pb);
+			} else {
+				char rq[80];
+				snprintf(rq, sizeof(rq), "{\"id\":\"fill%d\",\"method\":\"info\"}", i);
+				cl_send_text(A, rq);
+			}
+			if ((i & 7) == 7) {
+				jx_settle();
+			}
+		}
+		jx_settle();
+	}
+	for (int r = 0; r < repeat && !sim_conn_closed_by_daemon(A); r++) {
+		struct bytebuf b = {0};
+		if (ws) {
+			wsf_build(&fr, &b);
+		} else if (raw_input == 0) {
+			cl_frame_raw(&b, "{\"id\":\"x\",\"method\":\"get\",\"params\":{}}", 37);
+		} else if (raw_input == 1) {
+			cl_frame_raw(&b, "{\"id\":1,\"method\":", 17);
+		} else if (raw_input == 2) {
+			uint8_t h[4] = {0, 0x10, 0, 0};
+			bb_append(&b, h, 4);
+		} else if (raw_input == 3) {
+			const char *t = "[{\"id\":1,\"method\":\"info\"},{\"id\":2,\"method\":\"get\",\"params\":{}},{\"id\":3,\"method\":\"nosuch\"}]";
+			cl_frame_raw(&b, t, strlen(t));
+		} else {
+			const char *t = "{\"id\":\"rc\",\"method\":\"call\",\"params\":{\"path\":\"mb\",\"args\":[1],\"timeout\":1}}";
+			cl_frame_raw(&b, t, strlen(t));
+		}
+		send_hostile(A, b.p, b.len);
+		bb_free(&b);
+		jx_reply_routed(Bc, "\"result\":\"for-the-blocked-peer\"");
+		jx_settle();
+	}
+	/* the bystander's traffic goes on: notifications for A cannot be delivered */
+	jx_sendf(Bc, "{\"id\":\"bw\",\"method\":\"change\",\"params\":{\"path\":\"sb\",\"value\":5}}");
+	jx_settle();
+	if (!sim_conn_closed_by_daemon(A)) {
+		if (how == 1) {
+			sim_client_reset_escalate(A);
+		} else {
+			sim_client_fin(A);
+		}
+		jx_settle();
+	}
+	if (!sim_conn_closed_by_daemon(A)) {
+		fail6("connection-not-released", "the client has gone but the daemon keeps the connection open");
+	}
+	aftermath();
+	xp_nontrivial();
+	xp_transition();
+	xp_outcome(hash_mix(cl_transcript_hash(Bc), (uint64_t)how));
+	xp_state(hash_mix(hash64(d, strlen(d), 2) + (uint64_t)raw_input * 7, (uint64_t)ws * 100 + (uint64_t)how * 10 + (uint64_t)repeat));
+}
+
 static void run(void)
 {
 	long s = xp_param("section", 0);
+	if (s == 5) {
+		run_blocked_sender();
+		return;
+	}
 	if (s == 0) {
 		run_bytes();
 	} else if (s == 1) {
@@ -595,6 +697,6 @@ const struct driver drv_c06 = {
     .name = "c06",
     .property = "C06",
     .run = run,
-    .rule = "section 0: every byte string of length <= maxlen over {{ } [ ] \" : , 0 00 ff space a} x 6 endpoint forms (raw tcp stream, unix socket stream, payload of a raw message, payload of a websocket text message, http listener stream, websocket stream after the upgrade) x {FIN, well-formed request follows}; section 1: 24 JSON-RPC corpus messages (every method with its optional members, responses to unknown and to live routed ids, a batch) x every node x {delete, duplicate, duplicate as null, rename upper-case, rename prefixed, 16 retypings, 11 string lengths incl. 97..101 and the longest that fits / one more, nesting 50/150/240} x 2 transports, each followed by 8 trigger requests, a routed call, disconnect; section 2: the complete single-frame product opcode(16) x FIN x RSV(8) x MASK x length encoding(3) x 16 payload lengths (0..65536, 2^63, 2^63-1); section 3: all ordered pairs over a 26-frame alphabet x 3 deliveries (one event per frame, one read, two connections in one batch); section 4: all ordered triples over 10 frames x 2 deliveries; deviation budget 1: every split point (<= 300) of the hostile bytes, queued at once or after a would-block; oracle: ASan+UBSan (no crash / report), bystander untouched and served, listeners accept, resources at baseline, descriptor hygiene, clean SIGTERM exit; non-trivial = every non-empty input",
+    .rule = "section 0: every byte string of length <= maxlen over {{ } [ ] \" : , 0 00 ff space a} x 6 endpoint forms (raw tcp stream, unix socket stream, payload of a raw message, payload of a websocket text message, http listener stream, websocket stream after the upgrade) x {FIN, well-formed request follows}; section 1: 24 JSON-RPC corpus messages (every method with its optional members, responses to unknown and to live routed ids, a batch) x every node x {delete, duplicate, duplicate as null, rename upper-case, rename prefixed, 16 retypings, 11 string lengths incl. 97..101 and the longest that fits / one more, nesting 50/150/240} x 2 transports, each followed by 8 trigger requests, a routed call, disconnect; section 2: the complete single-frame product opcode(16) x FIN x RSV(8) x MASK x length encoding(3) x 16 payload lengths (0..65536, 2^63, 2^63-1); section 3: all ordered pairs over a 26-frame alphabet x 3 deliveries (one event per frame, one read, two connections in one batch); section 4: all ordered triples over 10 frames x 2 deliveries; section 5: each of the 26 frames / 5 raw inputs sent 1..3 times by a peer whose own send path is blocked (window 0 with a full write buffer, every writev failing, window 0 with room left); deviation budget 1: every split point (<= 300) of the hostile bytes, queued at once or after a would-block; oracle: ASan+UBSan (no crash / report), bystander untouched and served, listeners accept, resources at baseline, descriptor hygiene, clean SIGTERM exit; non-trivial = every non-empty input",
     .assumptions = "the input space of C06 is infinite: exhaustive only over the stated shapes|the sanitizers detect invalid accesses to heap/stack/global objects and the UB classes of -fsanitize=undefined, not every conceivable undefined behaviour",
 };
